@@ -59,6 +59,12 @@ func buildEdited(h historyCase) (*simdjson.ParsedJson, []*rj.Node, error) {
 	if err != nil {
 		return nil, nil, fmt.Errorf("valid document rejected: %v: %q", err, clip(h.Doc))
 	}
+	if h.ViaBlob {
+		s := simdjson.NewSerializer()
+		if pj, err = s.Deserialize(s.Serialize(nil, *pj), nil); err != nil {
+			return nil, nil, fmt.Errorf("Deserialize(Serialize(tape)): %v", err)
+		}
+	}
 	for step, op := range h.Ops {
 		wantErr, _, err := applyModel(roots, op)
 		if err != nil {
@@ -296,6 +302,19 @@ func genC11Doc(t *rapid.T) (historyCase, string) {
 		n := rapid.IntRange(60000, 140000).Draw(t, "slen")
 		if rapid.IntRange(0, 5).Draw(t, "mib") == 0 {
 			n = rapid.IntRange(1<<20+1, 1<<20+200000).Draw(t, "slenbig") // beyond 1 MiB
+		}
+		if rapid.IntRange(0, 39).Draw(t, "manymib") == 0 {
+			// more than 8 MiB of distinct string data
+			cnt := rapid.IntRange(1100, 1400).Draw(t, "cnt")
+			b.WriteByte('[')
+			for i := 0; i < cnt; i++ {
+				if i > 0 {
+					b.WriteByte(',')
+				}
+				b.WriteString(`"` + strconv.Itoa(i) + `-` + strings.Repeat(string(rune('a'+i%26)), 8000) + `"`)
+			}
+			b.WriteString(`,"last"]`)
+			return historyCase{Doc: b.Bytes(), Copy: rapid.Bool().Draw(t, "copy")}, "strings-beyond-8MiB"
 		}
 		b.WriteString(`{"k":"` + strings.Repeat("L", n) + `","e":"","k2":"` + strings.Repeat("é", n/4) + `"}`)
 		shape = "long-strings"
